@@ -15,9 +15,20 @@
 4. I->S: harness/drive_workerctl drives real workers with seeded random batches interleaved with
    client traffic and records ndjson traces; TLC validates them against Trace_WorkerCtl
    (canary: a corrupted copy of the trace must be rejected).
+
+Two classes added when seeds C08-21 / C08-22 showed holes (design_notes/C08.md, "Hole closed"):
+ * malformed requests (enum fields outside their enum in every request kind that carries one, a request
+   without request type, a kind of the main process): exactly one terminal answer (status "final": Ok or
+   Failure), nothing changes, the worker keeps answering (a Status sentinel behind every history);
+ * a cluster is a DEFINITION (AddClusterAlt redefines it: https_redirect, PROXY protocol towards tcp and
+   udp backends) published on several listeners of one kind (two udp, two tcp, two http listeners), then
+   redefined / removed / its backends changed, with a look through EACH listener (udp: one datagram of
+   a new flow per listener, what the mock backends got).
+Self-test deviations MalformedUnanswered / ClusterOneListenerOnly must be refuted by TLC on every run.
 """
 import json
 import os
+import threading
 
 import vlib
 from props import sozu_compose
@@ -31,6 +42,7 @@ CONSTANTS
   HFronts = %(hfronts)s
   TFronts = %(tfronts)s
   Backends = %(backends)s
+  UFronts = %(ufronts)s
   Verbs <- %(verbs)s
   MaxReq = %(maxreq)d
   AfterStop <- %(afterstop)s
@@ -56,10 +68,10 @@ def tla_set(xs):
 
 def write_cfg(wd, name, **kw):
     d = dict(spec="Spec", listeners=["hA", "tC"], clusters=["c1", "c2"], hfronts=["f1", "f3"],
-             tfronts=["t1", "t2"], backends=["b1"], verbs="VerbsCore", maxreq=4, afterstop="AfterStopKinds",
+             tfronts=["t1", "t2"], backends=["b1"], ufronts=[], verbs="VerbsCore", maxreq=4, afterstop="AfterStopKinds",
              dev=[], det=False, preamble="NoPreamble", emit=False, traffic=False, faults=False, tail=MC_TAIL)
     d.update(kw)
-    for k in ("listeners", "clusters", "hfronts", "tfronts", "backends", "dev"):
+    for k in ("listeners", "clusters", "hfronts", "tfronts", "backends", "ufronts", "dev"):
         d[k] = tla_set(d[k])
     d["det"] = "TRUE" if d["det"] else "FALSE"
     d["emit"] = "TRUE" if d["emit"] else "FALSE"
@@ -89,14 +101,79 @@ def generator_families(thorough):
     # one listener, one frontend, one backend, deep: removal and re-creation of the listener
     fam.append(("relisten", dict(listeners=["hA"], clusters=[], hfronts=["f1"], tfronts=[], backends=["b1"],
                                  verbs="VerbsRelisten", preamble="HaPreamble", maxreq=7 if not thorough else 8), 0))
+    # malformed requests of every kind, in a few states, with well-formed requests around them
+    fam.append(("malformed", dict(listeners=["hA", "uE"] if not thorough else ["hA", "tC", "uE"], clusters=["c1"], hfronts=["f1"],
+                                  tfronts=[], backends=[], verbs="VerbsMalformed", maxreq=3), 0))
+    # one cluster published on two listeners of one kind, then redefined / removed / backends and
+    # frontends changed; every listener is looked through (udp: a datagram of a new flow each)
+    deep = 10 if thorough else 9
+    fam.append(("shared-udp", dict(listeners=["uE", "uF"], clusters=["c1"], hfronts=[], tfronts=[], ufronts=["u1", "u2"],
+                                   backends=["b1", "b3"] if thorough else ["b1"], verbs="VerbsSharedUdp",
+                                   preamble="TwoUdpPreamble", maxreq=deep), 0))
+    fam.append(("shared-tcp", dict(listeners=["tC", "tG"], clusters=["c1"], hfronts=[], tfronts=["t1", "t3"],
+                                   backends=["b1", "b3"] if thorough else ["b1"], verbs="VerbsSharedTcp",
+                                   preamble="TwoTcpPreamble", maxreq=deep), 0))
+    fam.append(("shared-http", dict(listeners=["hA", "hB"], clusters=["c1"], hfronts=["f1", "f4"], tfronts=[],
+                                    backends=["b1"], verbs="VerbsSharedHttp", preamble="TwoHttpPreamble", maxreq=deep), 0))
     return fam
+
+
+# self-test deviations: each models a class of defect a seeded change showed the check was blind to;
+# TLC must produce a counterexample with the switch on (they are not known findings: the code has no such defect)
+SELF_TESTS = [
+    ("MalformedUnanswered", "P_C08_ExactlyOnce",
+     dict(listeners=["hA"], clusters=["c1"], hfronts=["f1"], tfronts=[], backends=[], verbs="VerbsMalformed", maxreq=3)),
+    ("ClusterOneListenerOnly", None,
+     dict(listeners=["uE", "uF", "tC"], preamble="SharedPreamble", clusters=["c1"], ufronts=["u1", "u2"], tfronts=["t1"],
+          hfronts=[], backends=["b1"], verbs="VerbsShared", maxreq=10)),
+]
+
+MALFORMED_KINDS = {"RemoveListenerBadType", "ActivateBadType", "DeactivateBadType", "NoType", "ForeignKind", "ConfigureMetricsBad",
+                   "MetricDetailBadEnum", "AddHFrontBadPos", "AddHFrontBadKind", "AddClusterBadEnums"}
+
+TRACE_KW = dict(spec="TraceSpec", listeners=["hA", "hB", "tC", "sD", "uE", "uF", "tG"], hfronts=["f1", "f2", "f3", "f4"],
+                tfronts=["t1", "t2", "t3"], ufronts=["u1", "u2", "u3"], backends=["b1", "b2", "b3"], verbs="VerbsAll",
+                afterstop="VerbsAll", maxreq=128)
 
 
 def run(tier, replay=None):
     rep = vlib.Report(PID, tier)
     wd = vlib.workdir(PID)
-    # the composed leg (spec/Sozu.tla: main process + real workers): convergence of every worker on the main process's view
-    sozu_compose.run_leg(rep, tier, PID, replay)
+    # the composed leg (spec/Sozu.tla: main process + real workers): convergence of every worker on the main process's view.
+    # It shares nothing with the legs below (own work directory, own binaries): it runs beside them, its results are
+    # merged before the report is finished.
+    compose_err = []
+
+    def compose():
+        try:
+            sozu_compose.run_leg(rep, tier, PID, replay)
+        except BaseException as e:      # re-raised by join_compose in the main thread
+            compose_err.append(e)
+
+    if replay:
+        sozu_compose.run_leg(rep, tier, PID, replay)
+        compose_thread = None
+    else:
+        compose_thread = threading.Thread(target=compose, name="compose")
+        compose_thread.start()
+
+    def join_compose():
+        if compose_thread is not None:
+            compose_thread.join()
+            if compose_err:
+                raise compose_err[0]
+
+    try:
+        run_own(rep, wd, tier, replay)
+    except BaseException:
+        if compose_thread is not None:
+            compose_thread.join()
+        raise
+    join_compose()
+    rep.finish()
+
+
+def run_own(rep, wd, tier, replay):
     bins = vlib.cargo_build(["replay_workerctl", "drive_workerctl"])
     open_findings = [e for e in vlib.load_findings(PID) if e.get("status") == "open" and e.get("deviation")]
     devs = sorted(e["deviation"] for e in open_findings)
@@ -115,9 +192,7 @@ def run(tier, replay=None):
                     rep.violation(v["class"], json.dumps(v["detail"])[:250], v)
             rep.cov["traces_validated_against_impl"] = 1
         else:
-            tcfg = write_cfg(wd, "trace.cfg", spec="TraceSpec", listeners=["hA", "hB", "tC", "sD", "uE"],
-                             hfronts=["f1", "f2", "f3", "f4"], backends=["b1", "b2", "b3"], verbs="VerbsAll",
-                             afterstop="VerbsAll", maxreq=64, dev=devs, tail=TRACE_TAIL)
+            tcfg = write_cfg(wd, "trace.cfg", dev=devs, tail=TRACE_TAIL, **TRACE_KW)
             r = vlib.tlc_trace("Trace_WorkerCtl", tcfg, PID, replay)
             if not r["accepted"]:
                 rep.violation("trace-rejected", "trace not a behaviour of WorkerCtl: consumed %s of %s" % (
@@ -142,6 +217,27 @@ def run(tier, replay=None):
     rep.add_tlc(live)
     if live["violated"]:
         rep.violation("spec:liveness", "a soft stop does not complete in the specification", live["out"])
+
+    # the two classes added for seeds C08-21 / C08-22, exhaustively: malformed requests; one cluster on several
+    # listeners of a kind (udp x2 + tcp), redefinition / removal / listener removal and re-creation
+    shared_tail = MC_TAIL + "\nPROPERTY P_C08_RemovedUnrouted"
+    for name, kw in (("mc_malformed.cfg", dict(listeners=["hA", "tC"], clusters=["c1"], hfronts=["f1"], tfronts=[], backends=[],
+                                               verbs="VerbsMalformed", maxreq=4 if thorough else 3)),
+                     ("mc_shared.cfg", dict(listeners=["uE", "uF", "tC"], preamble="SharedPreamble", clusters=["c1"],
+                                            ufronts=["u1", "u2"], tfronts=["t1"], hfronts=[], backends=["b1"],
+                                            verbs="VerbsShared", maxreq=12 if thorough else 10))):
+        r = vlib.tlc("MC_WorkerCtl", write_cfg(wd, name, tail=shared_tail, **kw), PID, workers=workers,
+                     timeout=2400 if thorough else 600)
+        rep.add_tlc(r)
+        if r["violated"]:
+            rep.violation("spec:" + r["violated"], "the specification itself violates %s (%s)" % (r["violated"], name), r["out"])
+    for dev, expected, kw in SELF_TESTS:
+        rd = vlib.tlc("MC_WorkerCtl", write_cfg(wd, "selftest_%s.cfg" % dev, dev=[dev], tail=shared_tail, **kw), PID,
+                      workers=workers, timeout=600)
+        rep.add_tlc(rd)
+        if not rd["violated"] or (expected and rd["violated"] != expected):
+            raise vlib.ToolError("self-test: deviation %s is not refuted by TLC (got %s)" % (dev, rd["violated"]))
+        vlib.log("self-test %s: TLC counterexample to %s as expected" % (dev, rd["violated"]))
 
     # ---- 2. each open deviation still breaks the property in the model
     for e in open_findings:
@@ -203,9 +299,8 @@ def run(tier, replay=None):
     chunk = 250
     accepted_runs = 0
     trace_events = 0
-    tcfg = write_cfg(wd, "trace.cfg", spec="TraceSpec", listeners=["hA", "hB", "tC", "sD", "uE"],
-                     hfronts=["f1", "f2", "f3", "f4"], backends=["b1", "b2", "b3"], verbs="VerbsAll",
-                     afterstop="VerbsAll", maxreq=64, dev=devs, tail=TRACE_TAIL)
+    tcfg = write_cfg(wd, "trace.cfg", dev=devs, tail=TRACE_TAIL, **TRACE_KW)
+    unstable_runs = 0
     for c in range(0, n_runs, chunk):
         trace = os.path.join(wd, "trace_%d.ndjson" % c)
         out = vlib.run_harness(bins["drive_workerctl"],
@@ -215,24 +310,48 @@ def run(tier, replay=None):
         if not summ:
             raise vlib.ToolError("drive_workerctl produced no summary")
         summ = summ[0]
-        r = vlib.tlc_trace("Trace_WorkerCtl", tcfg, PID, trace, timeout=2400)
-        rep.add_tlc(r)
         trace_events += summ["events"]
-        if r["accepted"]:
-            accepted_runs += summ["runs"]
-            if c == 0:
-                # canary: the binding must reject a corrupted recording
-                if not canary_rejected(wd, tcfg, trace):
-                    raise vlib.ToolError("trace validation accepted a corrupted trace (binding is vacuous)")
-        else:
-            # cut the offending run out of the trace file for the replay
-            bad = offending_run(trace, summ, r["consumed"])
+        # Every wait of the driver is a deadline: a run rejected because the machine stalled a worker thread conforms
+        # when it is driven again alone (same seed, same script) with four times the patience. Such a run is cut out
+        # of the recording (unstable, never a verdict) and the rest of the chunk is validated again.
+        cur, stripped = trace, 0
+        while True:
+            r = vlib.tlc_trace("Trace_WorkerCtl", tcfg, PID, cur, timeout=2400)
+            rep.add_tlc(r)
+            if r["accepted"]:
+                accepted_runs += summ["runs"] - stripped
+                if c == 0 and stripped == 0:
+                    # canary: the binding must reject a corrupted recording
+                    if not canary_rejected(wd, tcfg, trace):
+                        raise vlib.ToolError("trace validation accepted a corrupted trace (binding is vacuous)")
+                break
+            bad = offending_run(cur, summ, r["consumed"])
             klass = classify_rejection(bad)
+            if bad.get("run") and stripped < 3:
+                again = os.path.join(wd, "trace_%d_again%d.ndjson" % (c, stripped))
+                vlib.run_harness(bins["drive_workerctl"],
+                                 ["--seed", str(seed * 7919 + c), "--runs", str(min(chunk, n_runs - c)), "--threads", "1",
+                                  "--out", again, "--index-base", str(600000 + c), "--only", str(bad["run"]),
+                                  "--wait-ms", "16000"], timeout=1200)
+                r2 = vlib.tlc_trace("Trace_WorkerCtl", tcfg, PID, again, timeout=1200)
+                if r2["accepted"]:
+                    unstable_runs += 1
+                    stripped += 1
+                    vlib.log("trace run %s of chunk %d rejected (%s) but accepted when driven again alone: unstable, "
+                             "cut out, not a violation" % (bad["run"], c, klass))
+                    nxt = os.path.join(wd, "trace_%d_cut%d.ndjson" % (c, stripped))
+                    with open(cur) as f, open(nxt, "w") as g:
+                        for line in f:
+                            if json.loads(line).get("run") != bad["run"]:
+                                g.write(line)
+                    cur = nxt
+                    continue
             rep.violation(klass, "recorded behaviour of a real worker is not a behaviour of WorkerCtl "
                                  "(consumed %s of %s events; first unexplained: %s)" % (
                                      r["consumed"], r["total"], json.dumps(bad["event"])[:160]),
                           "".join(json.dumps(e) + "\n" for e in bad["events"]),
                           name="trace_%s_%d.ndjson" % (klass.replace(":", "_"), c))
+            break
         rep.cov["evaluations"] += summ["events"]
     vlib.log("trace validation: %d runs accepted of %d, %d events" % (accepted_runs, n_runs, trace_events))
 
@@ -242,6 +361,9 @@ def run(tier, replay=None):
     rep.extra["replayed_transitions"] = total_lines
     rep.extra["trace_runs_accepted"] = accepted_runs
     rep.extra["trace_events"] = trace_events
+    rep.extra["trace_runs_unstable"] = unstable_runs
+    if unstable_runs > 3:
+        raise vlib.ToolError("%d trace chunks were rejected and accepted when re-driven: machine too loaded for a verdict" % unstable_runs)
     rep.cov["rule"] = (
         "S->I: every (reachable spec state, request) transition of four generator configurations of WorkerCtl.tla "
         "(listener life-cycle x stops over http/tcp/https/udp listeners; clusters/backends/http+tcp frontends on "
@@ -250,22 +372,39 @@ def run(tier, replay=None):
         "(responses pushed, base_sessions_count, slab length), the ConfigState verdict; then query answers vs the "
         "main-process ConfigState vs the spec, client probes on every listener, final SoftStop and thread exit. "
         "distinct_nontrivial = distinct transitions replayed. I->S: seeded random batches with client traffic, "
-        "ndjson traces accepted by TLC against Trace_WorkerCtl (canary rejected).")
+        "ndjson traces accepted by TLC against Trace_WorkerCtl (canary rejected). Added generator configurations: "
+        "malformed requests (ListenerType / MetricsConfiguration / MetricDetail / RulePosition / PathRuleKind / cluster "
+        "enums outside their enum, no request type, a main-process kind) in every state of a small universe - one "
+        "terminal answer each, a Status sentinel behind every history; one cluster published on two udp / two tcp / two "
+        "http listeners, then redefined (AddClusterAlt), removed, backends and frontends changed - one datagram of a new "
+        "flow through EACH udp listener (delivered to which backend, behind a PROXY header or not, or dropped), PROXY "
+        "header seen by tcp backends, 301 on http listeners. The random driver has the same request kinds and a "
+        "scripted-random 'shared' scenario (28 % of the runs).")
     rep.assumptions += [
-        "request kinds a worker can receive = those the main process forwards (master-only kinds, which produce no answer at all, and requests without a type are excluded)",
-        "small universe: <=5 listeners (2 http, tcp, https, udp) on private loopback addresses, 2 clusters, 4 http frontends (two with the same route key), 2 tcp frontends on one listener, 3 backends; one concrete value per model value",
+        "malformed requests: one value outside each enum (4 / -1 / i32::MAX for ListenerType, 99 elsewhere), one main-process kind (ListWorkers), the request without type; unknown protobuf fields never reach sozu (prost drops them while decoding); ports above 65535 are not sent (a debug assertion of the protocol crate)",
+        "small universe: <=7 listeners (2 http, 2 tcp, https, 2 udp) on private loopback addresses, 2 clusters each in two definitions (plain / alternative), 4 http frontends (two with the same route key), 3 tcp and 3 udp frontends (one cluster on two listeners, two clusters on one listener), 3 backends; one concrete value per model value",
+        "udp datagram probes: a delivery the specification predicts is waited for (8 s); 'dropped' is concluded 150-200 ms after a Status round trip on the command channel that follows the datagram (a late look can only hide a wrong delivery, never raise an alarm); existing flows keep their captured configuration by design and are not probed",
         "convergence (b) is demanded after sequences in which every request was accepted by ConfigState and answered Ok by the worker; a worker Failure on an accepted request is C07/C09 territory",
         "client sessions are not modelled in the exhaustive model (soft stop under traffic is C10); in traces the slab may exceed base_sessions_count by the session entries of the connections the harness holds",
         "requests written behind a SoftStop may stay unanswered if the worker exits before reading them (they were not received)",
     ]
-    rep.finish()
 
 
 def canary_rejected(wd, tcfg, trace):
     """Corrupt one response status in a copy of the trace; TLC must reject it."""
     with open(trace) as f:
         lines = f.readlines()
-    idx = [i for i, l in enumerate(lines) if '"ev":"resp"' in l and '"st":"ok"' in l]
+    # (not the answer of a malformed request: Ok and Failure are both admissible there)
+    kinds = {}
+    for l in lines:
+        if '"ev":"send"' in l:
+            e = json.loads(l)
+            kinds[(e["run"], e["id"])] = e["k"]
+    def strict(l):
+        e = json.loads(l)
+        k = kinds.get((e["run"], e["id"]), "")
+        return k != "" and k not in MALFORMED_KINDS
+    idx = [i for i, l in enumerate(lines) if '"ev":"resp"' in l and '"st":"ok"' in l and strict(l)]
     if not idx:
         return True
     i = idx[len(idx) // 2]
